@@ -223,6 +223,32 @@ pub fn drive_c06(a: &Args) {
             call_all(&mut out, &per, &pat, &vec![0x58], &[0, 1, 5], &[0]);
         }
     }
+    // self-overlapping patterns (borders within borders) and subjects made of an occurrence, a proper prefix of the
+    // pattern and another occurrence: where searches that shift by a failure table go wrong
+    {
+        let lens: Vec<usize> = if a.thorough() { vec![4, 5, 6, 7, 8, 9] } else { vec![5, 6, 7] };
+        for &n in &lens {
+            for code in 0..(1u32 << n) {
+                let p: Vec<u32> = (0..n).map(|i| if (code >> i) & 1 == 1 { lb } else { la }).collect();
+                // only patterns with a proper border (prefix = suffix)
+                let has_border = (1..n).any(|k| p[..k] == p[n - k..]);
+                if !has_border {
+                    continue;
+                }
+                if !a.thorough() && n == 7 && code % 2 != (a.seed as u32) % 2 {
+                    continue;
+                }
+                for k in [n / 2, n - 2, n - 1] {
+                    let mut s = p.clone();
+                    s.extend(p[..k].iter());
+                    s.extend(p.iter());
+                    s.push(0x7A);
+                    s.extend(p.iter());
+                    call_all(&mut out, &s, &p, &vec![0x58], &[0, 1, n as i32], &[0]);
+                }
+            }
+        }
+    }
     // long subjects over a RICH alphabet (64 code points from all planes): search algorithms with per-character
     // tables (skip tables, hashed or truncated indices) only show their flaws when many distinct characters meet
     {
@@ -672,6 +698,28 @@ pub fn drive_c08(a: &Args) {
                 t.push(x);
                 t.extend(base[p..].iter());
                 out.emit(parse_event(&t));
+            }
+        }
+    }
+    // characters that text "hygiene" would strip, trim or normalise (byte order mark, blanks, line ends, zero-width
+    // and no-break spaces, NUL, DEL) are ordinary SMT-LIB characters: at the start, at the end, doubled, around escapes
+    {
+        let hyg = [0xFEFFu32, 0x20, 0x09, 0x0A, 0x0D, 0x00, 0x7F, 0x85, 0xA0, 0x200B, 0x2028, 0xFFFE, 0x61];
+        for t in all_strings(&hyg, 2) {
+            out.emit(parse_event(&t));
+            let mut with_esc = t.clone();
+            with_esc.extend([92, 117, 123, 52, 49, 125]);
+            with_esc.extend(t.iter());
+            out.emit(parse_event(&with_esc));
+        }
+        for &h in &hyg {
+            for body in [vec![97u32, 98], vec![92, 117, 48, 48, 52, 49], vec![34, 34]] {
+                let mut t = vec![h];
+                t.extend(body.iter());
+                t.push(h);
+                out.emit(parse_event(&t));
+                // the same code points as a string: printed and read back
+                out.emit(print_event(&t));
             }
         }
     }
